@@ -3,6 +3,7 @@ import Jap.Lemmas.ValidateStyles
 import Jap.Lemmas.Styles
 import Jap.Lemmas.StylesParse
 import Jap.Gen.SetDefaultsLoop
+import Jap.Gen.SignatureOptional
 /-!
 # C07 — equivalent ways of declaring a nested group behave identically
 
@@ -30,25 +31,59 @@ field lists with DECLARED group defaults (Core/Styles.lean), where `C07_same_tab
 namespace Jap.Props.C07
 open Jap.Validate
 
-/-- **C07_same_table.**  On a well-formed field list the four constructors produce the same dests, option strings, types,
-    defaults (`entries`) and the same required set; the dataclass, class-arguments and inner-parser styles also the same
-    whole-group option `--key`; the dotted style none. -/
+/-- **C07_same_table (flat lists, with the signature rules).**  For every field list whose defaulted fields are not named `_...`:
+    the dataclass / class-arguments constructors (which DERIVE `default=None`, not required, for a field whose annotation is
+    Optional of ANYTHING and that has no default: `normOpt`) produce the same dests, option strings, types, defaults and the same
+    required set as the dotted / inner-parser constructors applied to the fields as one states them on plain arguments
+    (`fields.map normOpt`); the three non-dotted styles the same whole-group option `--key`; the dotted style none. -/
 theorem C07_same_table_flat (key : String) (fields : List Field) (h : wfFields fields = true) :
     declDataclass key fields = declClassArgs key fields
-    ∧ declClassArgs key fields = (declDotted key fields).withWhole (some key)
-    ∧ declInnerParser key fields = (declDotted key fields).withWhole (some key)
-    ∧ (declDotted key fields).whole = none :=
-  ⟨rfl, declClass_eq key h, declInner_eq key fields, rfl⟩
+    ∧ declClassArgs key fields = (declDotted key (fields.map normOpt)).withWhole (some key)
+    ∧ declInnerParser key (fields.map normOpt) = (declDotted key (fields.map normOpt)).withWhole (some key)
+    ∧ (declDotted key (fields.map normOpt)).whole = none :=
+  ⟨rfl, declClass_eq key h, declInner_eq key _, rfl⟩
 
 /-- the tables of the four styles differ at most in the whole-group option -/
 theorem C07_table_of_style_flat (s : Style) (key : String) (fields : List Field) (h : wfFields fields = true) :
-    decl s key fields = (declDotted key fields).withWhole (if s = .dotted then none else some key) := by
+    decl s key fields = (declDotted key (fields.map normOpt)).withWhole (if s = .dotted then none else some key) := by
   obtain ⟨h1, h2, h3, _⟩ := C07_same_table_flat key fields h
   cases s with
   | dotted => rfl
   | dataclass => exact h1.trans h2
   | classArgs => exact h2
   | inner => exact h3
+
+/-- **the Optional rule, on the annotation being Optional of anything**: a field without default is required in the signature
+    styles exactly when its type is not Optional; `Optional[List[int]]`, `Optional[Dict[str,int]]`, `Optional[Tuple[int,str]]`,
+    `Optional[Literal['a','b']]` and `Optional[int]` alike get the default `None` and are not required (what seed C07-3A broke
+    for the parametrised generics) -/
+theorem C07_optional_without_default (key name : String) (ty : Ty) (hn : name.front ≠ '_') :
+    (declClassArgs key [⟨name, ty, none⟩]).required = (if isOptTy ty then [] else [key ++ "." ++ name])
+    ∧ (declClassArgs key [⟨name, ty, none⟩]).entries.map (·.default) = [Val.null]
+    ∧ (isOptTy .optInt && isOptTy .optListInt && isOptTy .optDictStrInt && isOptTy .optTupleIntStr && isOptTy .optLitAB) = true := by
+  have hw : wfField ⟨name, ty, none⟩ = true := by
+    unfold wfField
+    have : decide (name.front = '_') = false := decide_eq_false hn
+    simp only [this, Bool.and_false, Bool.not_false]
+  have hs := sigParam_wf hw
+  refine ⟨?_, ?_, rfl⟩
+  · unfold declClassArgs
+    simp only [List.filterMap_cons, List.filterMap_nil, hs]
+    by_cases h : isOptTy ty = true
+    · simp [normOpt, normOptD, h, addArgument]
+    · simp [normOpt, normOptD, h, addArgument]
+  · unfold declClassArgs
+    simp only [List.filterMap_cons, List.filterMap_nil, hs]
+    by_cases h : isOptTy ty = true
+    · simp [normOpt, normOptD, h, addArgument]
+    · simp [normOpt, normOptD, h, addArgument]
+
+/-- the extractor tie: in `_add_signature_parameter` the no-default branch asks `is_optional(annotation)` with the annotation as its
+    ONLY argument (no reference type restricting which Optionals count) and then sets `default = None` -/
+theorem C07_optional_rule_source :
+    Jap.Gen.SignatureOptional.isOptionalArgs = ["annotation"] ∧ Jap.Gen.SignatureOptional.setsDefaultNone = true
+    ∧ Jap.Gen.SignatureOptional.guardedByNoDefault = true := by
+  decide
 
 /-- **C07_styles (the three styles with a group action), full strength**: same values, same accept/reject, same order of the
     dumped configuration, for every input sequence — including whole-group JSON options and variables. -/
